@@ -76,3 +76,38 @@ Example C13_wrap_example :
   let wrap : wrap_fn := fun h b t s => (b, repeat 7 16) in
   forall h b t s, len (fst (wrap h b t s)) = len b /\ len (snd (wrap h b t s)) = 16.
 Proof. intros wrap h b t s. split; reflexivity. Qed.
+
+(* ---- flows: the functions of the source themselves, regenerated as syntax on every run (gen/F_client.v) and run in the world
+   Flow/World_client.v (dataclasses := the records of Model/Pdu.v, Request.v; the security context := arbitrary wrap / unwrap functions
+   and a signature size), ARE the model functions the theorems above are about.
+   Not tied: RpcClient._prepare_pdu (the store view[8:10] = .. goes through a memoryview aliasing b_pdu; Prelude/PyAst.v does not model
+   aliasing, so the regenerated term leaves b_pdu unpatched). ---- *)
+From V Require Import Prelude.PyAst Prelude.PyWorld gen.F_client Model.Verification Model.Gkdi Flow.World_client Proofs.Flow_client_frame.
+
+Theorem C13_flow_create_pdu_header : forall wrap unwrap pfuel sch fuel c pt al cid fl,
+  run (WC wrap unwrap pfuel sch) fuel k_flow_create_pdu_header [VO (OSelf c); VI pt; VI al; VI cid; VI fl]
+  = Ok (VO (OHdr (create_pdu_header pt al cid fl))).
+Proof. exact flow_create_pdu_header. Qed.
+Print Assumptions C13_flow_create_pdu_header.
+
+Theorem C13_flow_create_request : forall wrap unwrap pfuel sch fuel c cid op stub vt,
+  run (WC wrap unwrap pfuel sch) fuel k_flow_create_request [VO (OSelf c); VI cid; VI op; VB stub; vtv vt]
+  = Ok (VT [VO (OReq (fst (create_request (cl_auth c) cid op stub (option_map verification_trailer_pack vt))));
+            offv (snd (create_request (cl_auth c) cid op stub (option_map verification_trailer_pack vt)))]).
+Proof. exact flow_create_request. Qed.
+Print Assumptions C13_flow_create_request.
+
+(* AuthenticationProvider.wrap: what prepare_pdu puts on the wire for the sealed request *)
+Theorem C13_flow_auth_wrap : forall (wrap : wrap_fn) unwrap pfuel sch fuel ap h b t (sign : bool),
+  run (WC wrap unwrap pfuel sch) fuel k_flow_auth_wrap [VO (OAuthP ap); VB h; VB b; VB t; vb sign]
+  = Ok (VB (h ++ fst (wrap h b t sign) ++ t ++ snd (wrap h b t sign))).
+Proof. exact flow_auth_wrap. Qed.
+Print Assumptions C13_flow_auth_wrap.
+
+Theorem C13_flow_strip_get_key_result : forall wrap unwrap pfuel sch fuel rsp,
+  run (WC wrap unwrap pfuel sch) fuel k_flow_strip_get_key_result [VO (OResp rsp)]
+  = (let* e := GetKey_unpack_response
+                 (strip_auth_pad (rs_stub_data rsp) (option_map st_pad_length (rs_sec_trailer rsp))) in
+     Ok (VO (OEnvl e))).
+Proof. exact flow_strip_get_key_result. Qed.
+Print Assumptions C13_flow_strip_get_key_result.
